@@ -344,10 +344,15 @@ class C13(Sim):
                 # boundary data left on the volume by an earlier enable_boundary_connectivity(): either dropped by an edit, or still true
                 self.probes["boundary_data_carried_over"] += 1
                 helper._do_enable(mesh, ref, "carried_boundary", call_enable=False)
-            if r.chance(0.5):
-                helper._do_standalone(mesh, ref, "standalone_boundary")
-            helper._do_enable(mesh, ref, "enable_boundary")
-            self.probes["boundary_of_refined_volume"] += 1
+            extract_first = r.chance(0.5)  # the extractors fill the border tables too: run before the queries in half of the observations only
+
+            def extract():
+                if r.chance(0.5):
+                    helper._do_standalone(mesh, ref, "standalone_boundary")
+                helper._do_enable(mesh, ref, "enable_boundary")
+                self.probes["boundary_of_refined_volume"] += 1
+            if extract_first:
+                extract()
             names = ["f2c", "c2f", "c2c", "v2c", "c2e", "e2c", "e2f", "in_cell_face_index", "common_face", "other_face_side", "boundary_faces",
                      "interior_faces", "boundary_edges", "interior_edges", "boundary_vertices", "interior_vertices",
                      "is_face_on_border", "is_edge_on_border", "is_vertex_on_border", "f2e", "edge_id", "face_id"]
@@ -361,6 +366,7 @@ class C13(Sim):
             fc = mesh.face_corners
             if list(map(int, fc._elem)) != [v for f in faces for v in f] or list(map(int, fc._adj)) != [i for i, f in enumerate(faces) for _ in f]:
                 self.violation(clause, "element-lists", "state_corrupted", who, "corners", "%s: %d corner records for %d face-vertex incidences (or wrong content)" % (who, len(fc), sum(map(len, faces))))
+            extract_first, extract = True, None
             helper = c01.C01()
             helper.cfg = {"sort": True, "miss_rate": 0.0}
             helper.ref = ref
@@ -373,10 +379,19 @@ class C13(Sim):
         # the border family keeps its own lazily built tables (lists and per-element flags): asked more often than its share of the names
         border_names = [q for q in names if q.startswith(("boundary_", "interior_")) or q.endswith("_on_border")]
         flags = [q for q in ("is_edge_on_border", "is_vertex_on_border", "is_face_on_border") if q in names]
-        for j in range(nq + len(flags)):
-            # the three per-element border flags are asked once in every observation (each has a table of its own), then the seeded queries
-            q = flags[j] if j < len(flags) else (r.choice(border_names) if r.chance(0.3) else r.choice(names))
-            args = helper._gen_args(r, q)
+        # the per-element border flags have tables of their own: each is asked once per observation and, on volumes of moderate size,
+        # swept over EVERY element (an edit creates few new border elements: a single random probe rarely lands on one)
+        sweep = []
+        if self.kind == "tets":
+            for q, cnt in (("is_edge_on_border", len(ref.edges)), ("is_face_on_border", len(ref.faces)), ("is_vertex_on_border", ref.nv)):
+                if q in names and cnt <= 160:
+                    sweep += [(q, [i]) for i in range(cnt)]
+        plan = [(q, None) for q in flags] + sweep + [(None, None)] * nq
+        for q, args in plan:
+            if q is None:
+                q = r.choice(border_names) if r.chance(0.3) else r.choice(names)
+            if args is None:
+                args = helper._gen_args(r, q)
             fam, fn, expf, mode = Qt[q]
             o = call(fn, mesh, mesh.connectivity, *args)
             if not o.ok:
@@ -384,6 +399,8 @@ class C13(Sim):
             why = judge(q, mode, o.value, expf(ref, helper, *args))
             if why is not None:
                 self.violation(clause, q, "wrong_value", who, "warm" if self.warmed else "cold", "%s: %s%r = %r; %s" % (who, q, tuple(args), canon(o.value), why))
+        if not extract_first:
+            extract()
 
     # ------------------------------------------------------------------ per-operation contract (model side)
     def _peek(self):
